@@ -255,6 +255,16 @@ func (o OracleC14) After(x *Exec, op *Op, res *Res) {
 			return
 		}
 		T := x.LastEndTime
+		// warm-up: before its reward start time an asset is not charged the take rate
+		for _, dn := range pre.AssetOrder {
+			a := pre.Assets[dn]
+			if pa, ok := post.Assets[dn]; ok && T.Before(a.RewardStartTime) {
+				x.Label("c14:block-with-warm-up-asset")
+				if !pa.TotalTokens.Equal(a.TotalTokens) {
+					x.Fail("C14", "warm-up", "asset %s is still in its warm-up period (start %s, block time %s) but its staked total changed from %s to %s", dn, a.RewardStartTime, T, a.TotalTokens, pa.TotalTokens)
+				}
+			}
+		}
 		decayed := 0
 		for _, dn := range pre.AssetOrder {
 			a := pre.Assets[dn]
